@@ -1,6 +1,6 @@
 import PfModel.DriverVal
-import PfModel.Model.Pipeline
-/-! Driver for C02 (`pipe.run`, `pipe.argcombos`). -/
+import PfModel.Model.PipelineEntries
+/-! Driver for C02: `run`, `argcombos`, and the other entry points `func`, `callroot`, `callleaf`, `getitem`, `pfcall`. -/
 open Lean PF PF.Drv PF.Pipe
 
 /-- `{"name": "f", "params": [["p", "orig"], …], "outputs": ["a", "b"], "defaults": [["p", v]], "bound": [["p", v]]}` -/
@@ -21,9 +21,62 @@ def getReq (j : Json) : R Req := do
   | .str s => return .name s
   | _ => return .whole (← asList asStr j)
 
+def putEErr : EErr → Json
+  | .pipe e => putErr e
+  | .tooMany => jObj [("err", jStr "TypeError"), ("why", jStr "too many positional arguments")]
+  | .multiple p => jObj [("err", jStr "TypeError"), ("why", jStr s!"multiple values for argument {p}")]
+  | .unexpected p => jObj [("err", jStr "TypeError"), ("why", jStr s!"unexpected keyword argument {p}")]
+  | .missingRoot p => jObj [("err", jStr "TypeError"), ("why", jStr s!"missing a required argument {p}")]
+  | .leaves n => jObj [("err", jStr "ValueError"), ("why", jStr s!"{n} leaf nodes")]
+  | .extraKw p => jObj [("err", jStr "ValueError"), ("why", jStr s!"unexpected keyword argument {p}")]
+
+def putOutcome (fs : List Func) (kw : List (String × Val)) (req : Req) (o : Outcome) : Json :=
+  -- the specification, evaluated alongside (the refinement theorem says they agree)
+  let spec : Json := match req with
+    | .name n => match compose fs kw (fuelFor fs) n with | .ok v => putVal v | .error _ => Json.null
+    | .whole _ => Json.null
+  jObj [("value", putVal o.value), ("full", putKw o.full), ("calls", jList jStr o.calls), ("spec", spec)]
+
 def handle (m : String) (a : Json) : R Json := do
   let fs ← listF getFunc a "funcs"
   match m with
+  | "func" =>
+    let kw ← getKw (← fld a "kw")
+    let req ← getReq (← fld a "out")
+    match funcCall fs kw req with
+    | .error e => return putErr e
+    | .ok o => return putOutcome fs kw req o
+  | "callroot" =>
+    let kw ← getKw (← fld a "kw")
+    let pos ← listF getVal a "pos"
+    let req ← getReq (← fld a "out")
+    match callRoot fs req pos kw with
+    | .error e => return putEErr e
+    | .ok o =>
+      return jObj [("value", putVal o.value), ("full", putKw o.full), ("calls", jList jStr o.calls),
+                   ("root_args", jOpt (jList jStr) (reqRootArgs fs req))]
+  | "callleaf" =>
+    let kw ← getKw (← fld a "kw")
+    match callLeaf fs kw with
+    | .error e => return putEErr e
+    | .ok o =>
+      return jObj [("value", putVal o.value), ("full", putKw o.full), ("calls", jList jStr o.calls),
+                   ("leaf", jList (fun f => jList jStr f.outputs) (leafFuncs fs))]
+  | "getitem" =>
+    let req ← getReq (← fld a "out")
+    match getItem fs req with
+    | none => return jObj [("err", jStr "KeyError")]
+    | some f => return jObj [("name", jStr f.name), ("outputs", jList jStr f.outputs)]
+  | "pfcall" =>
+    -- `pipeline[out](**kw)`: the producing PipeFunc called directly with keyword arguments
+    let kw ← getKw (← fld a "kw")
+    let req ← getReq (← fld a "out")
+    match getItem fs req with
+    | none => return jObj [("err", jStr "KeyError")]
+    | some f =>
+      match pfCall f kw with
+      | .error e => return putEErr e
+      | .ok v => return jObj [("value", putVal v), ("name", jStr f.name)]
   | "run" =>
     let kw ← getKw (← fld a "kw")
     let req ← getReq (← fld a "out")
